@@ -134,12 +134,23 @@ def run(out, tier):
         if b in seen:
             continue
         seen.add(b)
-        out.violation("scenario %d (%s) event %d: %s" % (b, scs[b]["kind"], pos, json.dumps(rec)), {"scenario": scs[b], "failing_event": pos, "observed": rec})
+        out.violation("scenario %d (%s) event %d: %s" % (b, scs[b]["kind"], pos, json.dumps(rec)), {"scenario": scs[b], "failing_event": pos, "observed": rec, "trace": scenario_lines(lines, b)})
     for b, pos, rec in found["F18"]:
         if known:
             out.known_finding("F18", known[0]["what"])
         else:
             out.violation("scenario %d: lines offered while the guard was dropped were accepted but never written nor counted" % b, {"scenario": scs[b]})
+
+
+def scenario_lines(lines, beh):
+    """the recorded events of one scenario (kept with a violation: the runs are real-time races and need not repeat)"""
+    out, on = [], False
+    for x in lines:
+        if x.get("ev") == "reset":
+            on = x.get("beh") == beh
+        if on:
+            out.append(x)
+    return out
 
 
 def replay(out, path):
